@@ -577,14 +577,16 @@ func (sp SatisfiedPolicy) MarshalJSON() ([]byte, error) {
 // UnmarshalJSON implements json.Unmarshaler.
 func (sp *SatisfiedPolicy) UnmarshalJSON(b []byte) error {
 	var pre []string
+	var sigs []Signature // omitted when empty: must not keep the receiver's
 	err := json.Unmarshal(b, &struct {
 		Policy     *SpendPolicy
 		Signatures *[]Signature
 		Preimages  *[]string
-	}{&sp.Policy, &sp.Signatures, &pre})
+	}{&sp.Policy, &sigs, &pre})
 	if err != nil {
 		return err
 	}
+	sp.Signatures = sigs
 	sp.Preimages = make([][32]byte, len(pre))
 	for i := range sp.Preimages {
 		pre, err := hex.DecodeString(pre[i])
